@@ -166,7 +166,7 @@ Definition dsort_with (kf : arow -> val) (t : table) : table :=
 
 (* sort( *by): a key is the tuple of the named cells, or of a function of a cell (d.sort(lambda b: ...)) *)
 Inductive kfun := FNeg | FMod3 | FConst.
-Inductive keyspec := KCol (c : colname) | KFun (f : kfun) (c : colname).
+Inductive keyspec := KCol (c : colname) | KFun (f : kfun) (c : colname) | KFun2 (c1 c2 : colname).   (* KFun2: lambda c1, c2: c1 + c2 *)
 Definition apply_kfun (f : kfun) (v : val) : val :=
   match f, v with
   | FNeg, VNum fl t => VNum fl (- t)
@@ -175,7 +175,11 @@ Definition apply_kfun (f : kfun) (v : val) : val :=
   | _, _ => VNone
   end.
 Definition key_by (by_ : list keyspec) (r : arow) : val :=
-  VTuple (map (fun k => match k with KCol c => lookup r c | KFun f c => apply_kfun f (lookup r c) end) by_).
+  VTuple (map (fun k => match k with
+                        | KCol c => lookup r c
+                        | KFun f c => apply_kfun f (lookup r c)
+                        | KFun2 c1 c2 => match lookup r c1, lookup r c2 with VNum false a, VNum false b => VNum false (a + b) | _, _ => VNone end
+                        end) by_).
 Definition dsort_by (by_ : list keyspec) (t : table) : table :=
   match by_ with [] => t | _ => dsort_with (key_by by_) t end.
 
